@@ -230,12 +230,23 @@ func scribble(b []byte) {
 
 func applyOps(t *byteTable, b *msBeh) *applied {
 	a := &applied{}
+	skip := false
 	for k, op := range b.Ops {
+		if skip { // already applied together with the previous operation
+			skip = false
+			continue
+		}
 		str := t.expand(op.S)
 		switch op.Op {
 		case "new":
 			a.msgs = append(a.msgs, &sse.Message{})
 		case "data":
+			// AppendData(a, b) is AppendData(a) followed by AppendData(b): every other such pair goes in one call
+			if k+1 < len(b.Ops) && b.Ops[k+1].Op == "data" && b.Ops[k+1].I == op.I && (k+len(b.Ops))%2 == 0 {
+				a.msgs[op.I-1].AppendData(str, t.expand(b.Ops[k+1].S))
+				skip = true
+				break
+			}
 			a.msgs[op.I-1].AppendData(str)
 		case "comment":
 			a.msgs[op.I-1].AppendComment(str)
